@@ -1,6 +1,7 @@
 package checks
 
 import (
+	"regexp"
 	"fmt"
 	"sort"
 	"strings"
@@ -430,6 +431,30 @@ func (rw *regWorld) dump() (impl, ref string) {
 	return
 }
 
+var pendRe = regexp.MustCompile(`pend=\[[^\]]*\]`)
+
+// rankCounters replaces the message counters in "peer/counter" entries by their rank among the entries of that peer:
+// absolute counters depend on the length of the history, what later behaviour can depend on is which is older.
+func rankCounters(l []string) []string {
+	by := map[string][]int{}
+	for _, e := range l {
+		i := strings.LastIndex(e, "/")
+		if i < 0 {
+			continue
+		}
+		by[e[:i]] = append(by[e[:i]], atoi(e[i+1:]))
+	}
+	var out []string
+	for p, cs := range by {
+		sort.Ints(cs)
+		for r := range cs {
+			out = append(out, fmt.Sprintf("%s/#%d", p, r))
+		}
+	}
+	sort.Strings(out)
+	return out
+}
+
 func (rw *regWorld) identityKey() string {
 	var s []string
 	for _, p := range []string{"A", "B"} {
@@ -450,7 +475,25 @@ func (rw *regWorld) identityKey() string {
 		}
 	}
 	sort.Strings(s)
-	return " replaced=" + strings.Join(s, ",") + fmt.Sprintf(" uc=%d", rw.m.uc)
+	// the shape of the private bookkeeping maps of the written features (an entry that is an empty map is not the
+	// same as no entry: code that creates one map of a pair on demand and the other unconditionally tells them apart)
+	shape := ""
+	for _, l := range []string{"L1lc", "L2lc"} {
+		shape += " " + l + "{" + spine.VerifFeatureShape(rw.local(l)) + "}"
+	}
+	// who wrote the writes that wait for approval, oldest first (the removal of the writer's entity drops exactly those)
+	pw := append([]pendW{}, rw.m.pend...)
+	sort.Slice(pw, func(i, j int) bool {
+		if pw[i].peer != pw[j].peer {
+			return pw[i].peer < pw[j].peer
+		}
+		return pw[i].ctr < pw[j].ctr
+	})
+	writers := ""
+	for _, x := range pw {
+		writers += fmt.Sprintf(" %s:%s>%s=%d", x.peer, x.c, x.s, x.v)
+	}
+	return " replaced=" + strings.Join(s, ",") + fmt.Sprintf(" uc=%d", rw.m.uc) + shape + " writers=[" + writers + "]"
 }
 
 // expectation for the outbound trace of one operation
@@ -978,7 +1021,10 @@ func regDriver(name string, alphabet []string, events, approval bool, extra func
 		// the state key also says which registry entries refer to feature objects that a re-announcement has
 		// replaced meanwhile: the statements do not mention it (so it is not compared with the model), but
 		// later behaviour may depend on it, and states that differ in it must not be merged
-		st.Key = impl + rw.identityKey()
+		// (compared with the model with the exact message counters, used as key with the counters replaced by their rank)
+		st.Key = pendRe.ReplaceAllStringFunc(impl, func(m string) string {
+			return "pend=" + fmt.Sprint(rankCounters(strings.Fields(strings.Trim(strings.TrimPrefix(m, "pend="), "[]"))))
+		}) + rw.identityKey()
 		if impl != ref {
 			st.Violations = append(st.Violations, stateDiff(impl, ref)+" | op="+op)
 			st.Cut = true
